@@ -186,6 +186,15 @@ def shard_random(ctx, k, payload):
             seen.add(key)
             ctx.nt(f'{year}{status}{cents}')
         ctx.count('random:' + ('table' if cents < 10 ** 7 else 'formula'))
+        # a second amount inside the same whole dollar (results must not depend on what was asked before)
+        c3 = (cents // 100) * 100 + (delta[2] % 100)
+        if c3 != cents and c3 <= taxref.SUPPORTED_MAX * 100:
+            v3 = check_point(ctx, year, status, c3)
+            ctx.count('random:same_dollar_pair')
+            if c3 > cents:
+                check_pair(ctx, year, status, cents, v, c3, v3)
+            else:
+                check_pair(ctx, year, status, c3, v3, cents, v)
         # pair with a nearby larger income
         c2 = min(cents + delta[2], taxref.SUPPORTED_MAX * 100)
         if c2 > cents:
